@@ -297,7 +297,10 @@ constraint_type_resolve(arg_t *arg, asn1p_constraint_t *ct) {
         tmparg = *arg;
         tmparg.expr = rtype;
         tmparg.mod = rtype->module;
+        /* Names inside rtype's own constraints are those of its module */
+        tmparg.ns = asn1_namespace_new_from_module(rtype->module, 1);
         ret = asn1constraint_pullup(&tmparg);
+        asn1_namespace_free(tmparg.ns);
         if(ret) return ret;
 
         if(rtype->ioc_table) {
